@@ -1,0 +1,160 @@
+//go:build verif
+
+package tree
+
+import (
+	"github.com/bradenaw/juniper/iterator"
+)
+
+// This file is only compiled with the "verif" build tag. It gives external verification harnesses a
+// read-only view of the tree's private structure. Nothing in here modifies a tree or a cursor.
+
+// VerifNode is a read-only copy of one node.
+type VerifNode[K any, V any] struct {
+	// Position of the node in a pre-order walk from the root.
+	ID int
+	N  int
+	// All slots, including the ones at index >= N.
+	Keys     []K
+	Values   []V
+	Children []*VerifNode[K, V]
+	// True if the node's parent pointer is the node it was reached from (nil for the root).
+	ParentOK bool
+}
+
+// VerifTree is a read-only copy of a whole tree.
+type VerifTree[K any, V any] struct {
+	Root         *VerifNode[K, V]
+	Size         int
+	Gen          int
+	BranchFactor int
+	MaxKVs       int
+	MinKVs       int
+	Nodes        int
+}
+
+func verifSnapshot[K any, V any](t *btree[K, V]) (VerifTree[K, V], map[*node[K, V]]int) {
+	ids := map[*node[K, V]]int{}
+	var walk func(x *node[K, V], parent *node[K, V], budget *int) *VerifNode[K, V]
+	walk = func(x *node[K, V], parent *node[K, V], budget *int) *VerifNode[K, V] {
+		if x == nil {
+			return nil
+		}
+		*budget--
+		if *budget < 0 {
+			// Cyclic or absurdly large structure; stop.
+			return &VerifNode[K, V]{ID: -1}
+		}
+		if _, ok := ids[x]; ok {
+			// Shared node: the structure is not a tree.
+			return &VerifNode[K, V]{ID: -1}
+		}
+		out := &VerifNode[K, V]{
+			ID:       len(ids),
+			N:        int(x.n),
+			Keys:     append([]K(nil), x.keys[:]...),
+			Values:   append([]V(nil), x.values[:]...),
+			ParentOK: x.parent == parent,
+		}
+		ids[x] = out.ID
+		out.Children = make([]*VerifNode[K, V], len(x.children))
+		for i := range x.children {
+			out.Children[i] = walk(x.children[i], x, budget)
+		}
+		return out
+	}
+	budget := 1 << 20
+	out := VerifTree[K, V]{
+		Size:         t.size,
+		Gen:          t.gen,
+		BranchFactor: branchFactor,
+		MaxKVs:       maxKVs,
+		MinKVs:       minKVs,
+	}
+	out.Root = walk(t.root, nil, &budget)
+	out.Nodes = len(ids)
+	return out, ids
+}
+
+// VerifSnapshotMap returns a copy of m's structure.
+func VerifSnapshotMap[K any, V any](m Map[K, V]) VerifTree[K, V] {
+	t, _ := verifSnapshot(m.t)
+	return t
+}
+
+// VerifSnapshotSet returns a copy of s's structure.
+func VerifSnapshotSet[T any](s Set[T]) VerifTree[T, struct{}] {
+	t, _ := verifSnapshot(s.t)
+	return t
+}
+
+// VerifCursor describes the private state of an iterator returned by Iterate, Range or
+// RangeReverse.
+type VerifCursor[K any] struct {
+	// False if the iterator is not one of this package's.
+	Known    bool
+	Backward bool
+	// The While wrapper that implements the far bound, if any, and whether it is finished.
+	HasWhile  bool
+	WhileDone bool
+	// -1: off the edge (nil node). -2: parked in a node that is no longer part of the tree.
+	// Otherwise the pre-order ID of the node.
+	Node int
+	// n and the key slots of the node when it is no longer part of the tree.
+	DetachedN    int
+	DetachedKeys []K
+	I            int
+	K            K
+	GenCurrent   bool
+}
+
+func verifCursor[K any, V any](
+	t *btree[K, V],
+	it iterator.Iterator[KVPair[K, V]],
+) VerifCursor[K] {
+	var out VerifCursor[K]
+	if inner, done, ok := iterator.VerifUnwrapWhile(it); ok {
+		out.HasWhile = true
+		out.WhileDone = done
+		it = inner
+	}
+	var c *cursor[K, V]
+	switch x := it.(type) {
+	case *forwardIterator[K, V]:
+		c = &x.c
+	case *backwardIterator[K, V]:
+		c = &x.c
+		out.Backward = true
+	default:
+		return out
+	}
+	out.Known = true
+	_, ids := verifSnapshot(t)
+	if c.curr == nil {
+		out.Node = -1
+	} else if id, ok := ids[c.curr]; ok {
+		out.Node = id
+	} else {
+		out.Node = -2
+		out.DetachedN = int(c.curr.n)
+		out.DetachedKeys = append([]K(nil), c.curr.keys[:]...)
+	}
+	out.I = c.i
+	out.K = c.k
+	out.GenCurrent = c.gen == c.t.gen
+	return out
+}
+
+// VerifCursorMap describes an iterator obtained from m.
+func VerifCursorMap[K any, V any](m Map[K, V], it iterator.Iterator[KVPair[K, V]]) VerifCursor[K] {
+	return verifCursor(m.t, it)
+}
+
+// VerifCursorSet describes an iterator obtained from s.
+func VerifCursorSet[T any](s Set[T], it iterator.Iterator[T]) VerifCursor[T] {
+	inner, ok := iterator.VerifUnwrapMap[KVPair[T, struct{}], T](it)
+	if !ok {
+		return VerifCursor[T]{}
+	}
+	return verifCursor(s.t, inner)
+}
